@@ -167,6 +167,37 @@ def run_item(item, rec):
                     else:
                         out = symx.explore(harness, max_paths=4)
                     rec.add_explore(out)
+                # second pass: ONE tree object serves every option set in turn (execution options
+                # must not interfere with each other through the tree's caches)
+                if n >= 2:
+                    opts = option_sets(tier, si + ti + 1)
+                    rot = (si + ti) % len(opts)
+                    opts = opts[rot:] + opts[:rot]
+
+                    def shared(ctx, opts=opts, ssa=ssa):
+                        from cotengra.core import ContractionTree
+
+                        tree = ContractionTree.from_path(inputs, output, size, ssa_path=ssa)
+                        done = []
+                        for (impl, pe, order, prio) in opts:
+                            if prio is not None:
+                                tree.sort_contraction_indices(priority=prio)
+                            so = SymOrder() if order == "sym" else order
+                            out = symarr.as_obj_array(tree.contract(arrays, order=so, prefer_einsum=pe, implementation=impl))
+                            done.append([impl, pe, str(order), prio])
+                            bad = True if out.shape != want_shape else symarr.diff_formula(out, ref)
+                            seq = [list(x) for x in done]
+
+                            def viol(m, seq=seq):
+                                return dict(case=dict(inputs=list(inputs), output=output, size=size, ssa=[list(p) for p in ssa], shared_tree_sequence=seq),
+                                            arrays=[a.tolist() for a in symarr.model_arrays(m, arrays)], signature=["C01-shared", list(inputs), output, str(seq[-2:])])
+
+                            rec.refute(ctx, bad, "value==einsum (same tree object, successive option sets)", viol, reach_probe=False)
+                            if isinstance(so, SymOrder):
+                                # keep the order keys concrete for the rest of the sequence
+                                pass
+
+                    rec.add_explore(symx.explore(shared, max_paths=60))
             rec.sample(dict(inputs=list(inputs), output=output, size=size, trees=len(trees), entries="z3 Reals"))
         # engine validation: one concrete run per skeleton against numpy float reference
         size = size_patterns(labels, tier)[1 if len(labels) else 0]
@@ -199,6 +230,23 @@ def replay(v):
     case = v["case"]
     inputs, output, size = tuple(case["inputs"]), case["output"], case["size"]
     ssa = [tuple(p) for p in case["ssa"]]
+    if "shared_tree_sequence" in case:
+        from cotengra.core import ContractionTree
+
+        for arrays in ([np.array(a, dtype=float).reshape(tuple(size[c] for c in t)) for a, t in zip(v["arrays"], inputs)], symarr.generic_arrays(inputs, size, seed=7)):
+            want = symarr.np_reference(inputs, output, size, arrays)
+            tree = ContractionTree.from_path(inputs, output, size, ssa_path=ssa)
+            for impl, pe, order, prio in case["shared_tree_sequence"]:
+                if prio is not None:
+                    tree.sort_contraction_indices(priority=prio)
+                order = None if order in ("None", "sym") else order
+                try:
+                    got = np.asarray(tree.contract(arrays, order=order, prefer_einsum=pe, implementation=impl))
+                except Exception as e:  # noqa
+                    return True, f"same tree, option sequence {case['shared_tree_sequence']}: contract raised {e!r}"
+                if got.shape != want.shape or not np.allclose(got, want, rtol=1e-9, atol=1e-12):
+                    return True, f"same tree, option sequence {case['shared_tree_sequence']}: wrong result at step {[impl, pe, order, prio]}"
+        return False, "sequence agrees with the reference"
     order = case["order"]
     if order == "sym":
         keys = {frozenset(nd): k for nd, k in v.get("order_keys", [])}
